@@ -109,6 +109,22 @@ theorem tick_row15 (s : Subn) (h : s.state = .keepAlive) (hn : s.notifs = []) (h
   subst h hn hp hk hsq
   cases enabled <;> cases hasItem <;> eval_tick
 
+/-- row #27 on a tick with a request queued (timer or arriving request), Normal or KeepAlive,
+nothing queued, no data: close and queue the status change -/
+theorem tick_close_served (s : Subn) (timer e : Bool) (h : s.state = .normal ∨ s.state = .keepAlive)
+    (hn : s.notifs = []) (hp : s.pending = false) (hl : s.life = 1) (hsq : s.seq = succ32 s.lastSeq) :
+    subTick s timer e true = some { s with
+      state := .closed
+      hasItem := false
+      pending := false
+      seq := succ32 s.seq
+      lastSeq := s.seq
+      notifs := [(.statusChange, s.seq)] } := by
+  obtain ⟨state, maxLife, maxKa, life, ka, sent, enabled, notifs, seq, lastSeq, hasItem, pending⟩ := s
+  simp only at h hn hp hl hsq
+  subst hn hp hl hsq
+  rcases h with rfl | rfl <;> cases timer <;> cases e <;> cases hasItem <;> eval_tick
+
 /-! ### Regime 2 lemmas, proved with the merge switch `keepOnNone` off AND on -/
 
 /-- the current source with the merge switch `keepOnNone` set to `k` (`cur current.keepOnNone` IS
